@@ -1552,6 +1552,9 @@ class Program:
         import sys
         import types
 
+        import typing
+        for clear in getattr(typing, "_cleanups", ()):
+            clear()  # typing caches List['D1'] with its ForwardRef, whose value (once evaluated for a function) would leak into the next program using the same class name
         _counter[0] += 1
         name = f"vfprog_{_counter[0]}"
         mod = types.ModuleType(name)
